@@ -3813,6 +3813,14 @@ coap_handle_response_get_block(coap_context_t *context,
         }
         saved_offset = offset;
 
+        if (lg_crcv->initial == 2 && block.num != 0) {
+          /*
+           * The request was restarted from block 0 because the body changed.
+           * This is a late block of the abandoned pass: do not resume from it,
+           * or that pass and the restarted one invalidate each other for ever.
+           */
+          goto skip_app_handler;
+        }
         if (lg_crcv->initial) {
 #if COAP_Q_BLOCK_SUPPORT
 reinit:
@@ -3862,7 +3870,8 @@ reinit:
             if (!(session->block_mode & COAP_BLOCK_SINGLE_BODY))
               coap_handle_event_lkd(context, COAP_EVENT_PARTIAL_BLOCK, session);
 
-            lg_crcv->initial = 1;
+            /* 2: restarted - wait for block 0 of the new representation */
+            lg_crcv->initial = 2;
             coap_free_type(COAP_STRING, lg_crcv->body_data);
             lg_crcv->body_data = NULL;
 
